@@ -82,8 +82,11 @@ type Folder struct {
 	Opaque func(f *ssa.Function) bool
 	// EnterCall, when set, may veto folding through one particular call site.
 	EnterCall func(call *ssa.Call) bool
-	MaxDepth  int
-	memo      map[string]*FoldResult
+	// CallHook, when set, may give the value of a call from the folded values of its arguments
+	// (modelled primitives called with arguments that are constants only in this fold).
+	CallHook func(call *ssa.Call, args []LV) (LV, bool)
+	MaxDepth int
+	memo     map[string]*FoldResult
 }
 
 type FoldResult struct {
@@ -582,6 +585,15 @@ func (fo *Folder) eval(res *FoldResult, v ssa.Value, depth int) LV {
 		}
 		if cal == nil || len(cal.Blocks) == 0 || !fo.P.InModule(cal) {
 			return bottom
+		}
+		if fo.CallHook != nil {
+			var hargs []LV
+			for _, a := range x.Call.Args {
+				hargs = append(hargs, fo.operand(res, a))
+			}
+			if lv, ok := fo.CallHook(x, hargs); ok {
+				return lv
+			}
 		}
 		if fo.Opaque != nil && fo.Opaque(cal) {
 			return bottom
